@@ -392,6 +392,47 @@ fn gen_case_cfg(rng: &mut Rng, out: &mut Out, tier: &str, id: usize) {
     gen_body(rng, out, tier, nex, &defs);
 }
 
+/// NETTING family (`n<k>`): account trades on instruments that ALREADY hold a position (increase / reduce /
+/// exact close / flip: the four arms of `Position::update_from_trade`, netted by the model's `netFill`), with
+/// ClosePositions commands in between, so that the requests the engine sends are built from NET positions.
+fn gen_case_net(rng: &mut Rng, out: &mut Out, tier: &str) {
+    let nex = rng.range(1, 3) as usize;
+    let links: String = (0..nex).map(|_| if rng.chance(80) { 'H' } else { *rng.pick(&['C', 'U', 'M']) }).collect();
+    let mut defs: Vec<(usize, usize, usize)> = (0..nex).map(|e| (e, rng.below(3) as usize, 3)).collect();
+    for _ in 0..rng.below(3) {
+        defs.push((rng.below(nex as u64) as usize, rng.below(3) as usize, 3));
+    }
+    let nins = defs.len();
+    let trading = if rng.chance(50) { "on" } else { "off" };
+    out.line(format!(
+        "init {trading} L {links} I {}",
+        defs.iter().map(|(e, b, q)| format!("{e},{b},{q}")).collect::<Vec<_>>().join(" ")
+    ));
+    for i in 0..nins {
+        if rng.chance(85) {
+            out.line(format!("ev price {i} {}", 100 + rng.below(5)));
+        }
+    }
+    let len = rng.range(6, if tier == "thorough" { 30 } else { 18 });
+    for _ in 0..len {
+        let i = rng.below(nins as u64) as usize;
+        let line = match rng.below(12) {
+            0..=6 => format!(
+                "ev fill {i} {} {}",
+                if rng.chance(50) { "B" } else { "S" },
+                rng.pick(&["1", "2", "3", "0.5", "1.5", "4"])
+            ),
+            7 => format!("ev close_positions {}", gen_filter(rng, nex, nins)),
+            8 => format!("ev price {i} {}", 100 + rng.below(5)),
+            9 => format!("ev reduce {i}"),
+            10 => format!("ev flat {i}"),
+            _ => format!("ev trading {}", if rng.chance(50) { "on" } else { "off" }),
+        };
+        out.line(line);
+    }
+    out.line("ev close_positions none");
+}
+
 fn generate(seed: u64, n_cases: usize, tier: &str) {
     let mut out = Out::new();
     let mut rng = Rng::new(seed);
@@ -410,6 +451,12 @@ fn generate(seed: u64, n_cases: usize, tier: &str) {
     for id in 0..n_cases / 5 {
         out.case(format!("cfg{id}"));
         gen_case_cfg(&mut crng, &mut out, tier, id);
+    }
+    // netting family (fills on instruments that already hold a position), own random stream
+    let mut nrng = Rng::new(seed ^ 0x4E_77_C0_03_5E_ED);
+    for id in 0..(n_cases / 5).max(if n_cases > 0 { 10 } else { 0 }) {
+        out.case(format!("n{id}"));
+        gen_case_net(&mut nrng, &mut out, tier);
     }
     out.flush();
 }
